@@ -67,4 +67,49 @@ example : ((serializeSt true mkTree [Val.tuple [.int 3, .int 2, .int 1]]).1.map 
         (fun c => (viewTree c).2.length) = some 2) := by
   decide +kernel
 
+
+/-
+`c17_roundtrip` (full statement, NOT proved):
+
+    theorem c17_roundtrip (L : Laws mk view ord) (vs : List (Val R)) (c : R) (h : serialize mk vs = some c) :
+        ∃ n, ∀ fuel, n ≤ fuel → deserialize view ord fuel c = some vs
+
+Planned route: `c17_schema` (proved above) composed with "the model parser inverts the schema relation"
+(`IsStack view ord vs b r → De.stack … ⟨b ++ b', r ++ r'⟩ = (⟨b', r'⟩, some vs)`), by recursion over the
+derivation.  Proved so far are the leaves of that recursion — every scalar field and the VmCellSlice record
+(`c17_roundtrip_partial` below).  Missing: the tag dispatch of `VmStackValue.deserialize` (15-bit / 2-byte
+preload), the `VmTuple`/`VmTupleRef`/`VmStackList` recursions, the ten `VmCont` branches and `VmControlData`.
+Until then the round trip of whole stacks is checked on the library and against the model by sampling only.
+-/
+
+/-- `c17_roundtrip_partial` (fields): what the serialiser writes for an `intN` / `uintN` field and for a
+    `VmCellSlice` record is read back by the parser's `load_int(n)` / `load_uint(n)` / `VmCellSlice.deserialize`
+    as the same value, consuming exactly the field and leaving the rest of the slice untouched — for every width
+    `n ≥ 1`, every in-range value (in particular int64 and int257 at ±2^63, ±2^256) and every slice. -/
+theorem c17_roundtrip_partial (L : Laws mk view ord) :
+    (∀ (n : Nat) (v : Int) (b : Builder R) (b1 : Builder R) (rest : Bits) (rs : List R), 0 < n →
+        run (BOp.storeInt v n) b = some b1 →
+        ∃ xs, b1.bits = b.bits ++ xs ∧ SOp.loadInt n (⟨xs ++ rest, rs⟩ : Slice R) = (⟨rest, rs⟩, some v)) ∧
+    (∀ (n : Nat) (v : Int) (b : Builder R) (b1 : Builder R) (rest : Bits) (rs : List R), 0 < n →
+        run (BOp.storeUint v n) b = some b1 →
+        ∃ xs, b1.bits = b.bits ++ xs ∧ SOp.loadUint n (⟨xs ++ rest, rs⟩ : Slice R) = (⟨rest, rs⟩, some v)) ∧
+    (∀ (bits : Bits) (refs : List R) (bt : Built R) (rest : Bits) (rs : List R),
+        serCellSlice mk bits refs = some bt →
+        De.cellSlice view ⟨bt.bits ++ rest, bt.refs ++ rs⟩ = (⟨rest, rs⟩, some (bits, refs))) := by
+  refine ⟨?_, ?_, ?_⟩
+  · intro n v b b1 rest rs hn h
+    obtain ⟨e, _, hok⟩ := eff_storeInt v n b b1 h
+    refine ⟨intBits n v, by simp [e], ?_⟩
+    simpa using reads_loadInt (R := R) hn hok rest rs
+  · intro n v b b1 rest rs hn h
+    obtain ⟨e, _, hok⟩ := eff_storeUint v n b b1 h
+    refine ⟨uintBits n v, by simp [e], ?_⟩
+    simpa using reads_loadUint (R := R) hn hok rest rs
+  · intro bits refs bt rest rs h
+    exact reads_cellSlice (ser_cellSlice L h).1 rest rs
+
+/-- the hypotheses are met: −2^63 is stored as int64 and read back; a partly consumed slice goes through VmCellSlice -/
+example : run (BOp.storeInt (-(2 ^ 63)) 64) (Builder.empty : Builder Cell) ≠ none := by decide +kernel
+example : (serCellSlice mkTree [true, false, true] [Cell.mk (-1) [] []]).isSome = true := by decide +kernel
+
 end TonVerif.C17
